@@ -31,6 +31,8 @@ func TestSim(t *testing.T) {
 		rc = historyMain()
 	case "histchild":
 		rc = histChildMain()
+	case "procs":
+		rc = procsMain()
 	default:
 		rc = 2
 	}
